@@ -24,6 +24,8 @@ Plain == {"linearity",                 \* f(a x + b y) = a f(x) + b f(y)
                                        \* (d = 1 for the linear maps, d = k for the k-th invariant)
           "representation",            \* f(x) does not depend on the in-memory representation of x (Fortran order,
                                        \* strided view, read-only, integer-typed) and leaves the caller's array untouched
+          "call-history",              \* two calls in a row on ONE argument object refilled in place: the second result is
+                                       \* that of the second contents and the first result is not changed by the second call
           "roundtrip",                 \* g(f(x)) = x for the inverse pairs
           "minor-major-symmetry",      \* of voigt_to_elastic_tensor(M) and of rotated tensors
           "isometry",                  \* |X(M)| = |C(M)|_F
